@@ -346,6 +346,8 @@ def rule_c13_choice(prog: Program, col: Collector) -> None:
         if t == worst:
             when_worst, when_not = (b, a) if neg else (a, b)
             okp = when_not in (mx, mxn) and when_worst in (mn, mnn)
+    if okp is None and ext in (mx, mxn, mn, mnn):
+        okp = False       # the extremum does not depend on `worst` at all: one of 'greedy' / 'greedy_worst' follows the wrong rule
     if okp is None:
         col.undecidable(ref.where(), ref.short, f"extremum not of the form max(..) if not self.worst else min(..): {short(ext, 80)}")
     else:
